@@ -68,13 +68,17 @@ def _verif_install(hook) -> bool:
 def _lower(ch: str) -> str:
     """Simple lower-case mapping: a mapping to several characters leaves ch unchanged."""
     low = ch.lower()
-    return low if len(low) == 1 else ch
+    if len(low) != 1 or (ord(ch) >= 128 and ord(low) < 128):
+        return ch  # a non-ASCII character never folds onto an ASCII one
+    return low
 
 
 def _upper(ch: str) -> str:
     """Simple upper-case mapping (ECMAScript Canonicalize): 'ß'.upper() is 'SS', so ß stays ß."""
     up = ch.upper()
-    return up if len(up) == 1 else ch
+    if len(up) != 1 or (ord(ch) >= 128 and ord(up) < 128):
+        return ch  # a non-ASCII character never folds onto an ASCII one
+    return up
 
 
 class RegexVM:
